@@ -38,6 +38,10 @@ def firstDiff (a b : List Nat) : Option (Nat × Nat × Nat) :=
     | _, _, _ => none
   go a b 0
 
+def dedupAdj : List Nat → List Nat
+  | a :: b :: rest => if a = b then dedupAdj (b :: rest) else a :: dedupAdj (b :: rest)
+  | l => l
+
 def handleBase (line : String) : String :=
   match line.splitOn "\t" with
   | [req, ans] =>
@@ -45,7 +49,7 @@ def handleBase (line : String) : String :=
     else if ans.startsWith "err:" then "rejected " ++ ans ++ "\t-"
     else
       match splitBar req, splitBar ans with
-      | [head, st], fnS :: trS :: postS :: orS :: _ =>
+      | [head, st], fnS :: trS :: postS :: orS :: rest =>
         let hf := head.splitOn " "
         let arch := hf[1]?.getD ""
         let mips := arch.startsWith "mips"
@@ -82,13 +86,28 @@ def handleBase (line : String) : String :=
                 match firstDiff fnTr refTr with
                 | some (k, a, b) => s!"diverge k={k} fn={Fil.hex a} ref={Fil.hex b}\t-"
                 | none =>
-                  let cut := fnTr.length ≥ steps || refTr.length ≥ steps
-                  if cut then "ok\tcut"
+                  -- the function-level run was cut by the step bound: only the common prefix is comparable.  (A function run
+                  -- that ENDED before the bound while the reference runs on is a divergence, handled below.)
+                  let cut := fnTr.length ≥ steps
+                  -- 3. (only when everything above agrees) the recovered function vs the INDEPENDENT reference machine,
+                  --    which decodes the raw bytes itself (no lifter involved); its trace may be a prefix (it stops at
+                  --    encodings it does not know); consecutive repetitions of one address are one entry, as in `trace`
+                  let machTr : List Nat := match rest.getLast? with
+                    | some m => if m.startsWith "machine" then dedupAdj (parseTrace (m.drop 8).toString) else []
+                    | none => []
+                  let machine : Option String :=
+                    match firstDiff fnTr machTr with
+                    | some (k, a, b) => some s!"diverge-from-machine k={k} fn={Fil.hex a} machine={Fil.hex b}"
+                    | none =>
+                      if machTr.length > fnTr.length ∧ fnTr.length < steps ∧ fnRun.head ≠ "err:steps" then
+                        some s!"diverge-from-machine k={fnTr.length} fn-ends=[{fnRun.head}] machine={Fil.hex (machTr.getD fnTr.length 0)}"
+                      else none
+                  if cut then (match machine with | some m => m ++ "\t-" | none => "ok\tcut")
                   else if fnTr.length ≠ refTr.length then
                     s!"diverge k={min fnTr.length refTr.length} fn-len={fnTr.length} ref-len={refTr.length} fn=[{fnRun.head}] ref=[{refRun.head}]\t-"
                   else if post fnRun ≠ post refRun then
                     "post-differs fn=[" ++ fnRun.head ++ "] ref=[" ++ refRun.head ++ "]\t" ++ post refRun
-                  else "ok\t-"
+                  else (match machine with | some m => m ++ "\t-" | none => "ok\t-")
         | _, _, _ => "unparsable\t-"
       | _, _ => "unparsable\t-"
   | _ => "bad-request\t-"
